@@ -1,13 +1,28 @@
 /-
-  Certificate obligations, part 6 of 8 of the `current` client system (kernel evaluation; one module per
-  part so that lake checks them in parallel). Assembled in `Lemmas/CliCert.lean`.
+  Certificate obligations, parts 48..55 of 64 of the `current` client system (kernel evaluation; 8 modules
+  so that lake checks them in parallel; small parts keep the kernel's memory small).
+  Assembled in `Lemmas/CliCert.lean`.
 -/
 import KmipModel.Model.CliConn
 import KmipModel.Gen.CertCliConn
 namespace Kmip.CliCert
 open Kmip.CliLts Kmip.CliConn Kmip.Gen.CertCliConn
 
-theorem cuClosed6 : partClosed (sys current) codec certCurrent cuP6 = true := by decide +kernel
-theorem cuSafe6 : partSafe codec (badPartial current) cuP6 = true := by decide +kernel
+theorem cuClosed48 : partClosed (sys current) codec certCurrent cuP48 = true := by decide +kernel
+theorem cuSafe48 : partSafe codec (badPartial current) cuP48 = true := by decide +kernel
+theorem cuClosed49 : partClosed (sys current) codec certCurrent cuP49 = true := by decide +kernel
+theorem cuSafe49 : partSafe codec (badPartial current) cuP49 = true := by decide +kernel
+theorem cuClosed50 : partClosed (sys current) codec certCurrent cuP50 = true := by decide +kernel
+theorem cuSafe50 : partSafe codec (badPartial current) cuP50 = true := by decide +kernel
+theorem cuClosed51 : partClosed (sys current) codec certCurrent cuP51 = true := by decide +kernel
+theorem cuSafe51 : partSafe codec (badPartial current) cuP51 = true := by decide +kernel
+theorem cuClosed52 : partClosed (sys current) codec certCurrent cuP52 = true := by decide +kernel
+theorem cuSafe52 : partSafe codec (badPartial current) cuP52 = true := by decide +kernel
+theorem cuClosed53 : partClosed (sys current) codec certCurrent cuP53 = true := by decide +kernel
+theorem cuSafe53 : partSafe codec (badPartial current) cuP53 = true := by decide +kernel
+theorem cuClosed54 : partClosed (sys current) codec certCurrent cuP54 = true := by decide +kernel
+theorem cuSafe54 : partSafe codec (badPartial current) cuP54 = true := by decide +kernel
+theorem cuClosed55 : partClosed (sys current) codec certCurrent cuP55 = true := by decide +kernel
+theorem cuSafe55 : partSafe codec (badPartial current) cuP55 = true := by decide +kernel
 
 end Kmip.CliCert
